@@ -99,20 +99,24 @@ end
 def disjoint (l r : List Nat) : Bool := l.all (fun x => !r.contains x)
 
 mutual
-/-- expressions over `+`, `-`, `constant * e`, `e * constant`, `$max`, integer literals and
-    physical integer leaves of known size ≥ 1, in which every leaf id occurs at most once -/
+/-- the fragment for which the property statement promises tight bounds: expressions over
+    `+`, `-`, `*`, `$max` (at least one argument), integer literals and physical integer
+    leaves of known size ≥ 1, in which **every leaf id occurs at most once** (the operands
+    of every operator mention disjoint sets of leaves).  It contains the linear
+    expressions `c0 + c1*x1 + … + cn*xn` over distinct leaves. -/
 def LinOnce : Expr → Bool
   | .const _ => true
-  | .ileaf _ _ (some s) => decide (1 ≤ s)
-  | .bin .add l r => LinOnce l && LinOnce r && disjoint (ivars l) (ivars r)
-  | .bin .sub l r => LinOnce l && LinOnce r && disjoint (ivars l) (ivars r)
-  | .bin .mul (.const _) r => LinOnce r
-  | .bin .mul l (.const _) => LinOnce l
-  | .max args => LinOnceList args
+  | .ileaf _ _ size => (match size with | some s => decide (1 ≤ s) | none => false)
+  | .bin op l r => isArith op && LinOnce l && LinOnce r && disjoint (ivars l) (ivars r)
+  | .max args => !args.isEmpty && LinOnceList args
   | _ => false
 def LinOnceList : List Expr → Bool
   | [] => true
   | e :: es => LinOnce e && LinOnceList es && disjoint (ivars e) (ivarsList es)
 end
+
+/-- the environment that reads the leaves in `vs` from `ρ1` and all others from `ρ2` -/
+def mergeEnv (vs : List Nat) (ρ1 ρ2 : Env) : Env :=
+  ⟨fun id => if vs.contains id then ρ1.i id else ρ2.i id, ρ2.b, ρ2.e⟩
 
 end Emboss.Bounds
